@@ -5,6 +5,7 @@ from .props import Prop, spec_field, klass
 
 
 class C15(Prop):
+    named_errors = {"Null", "Invalid"}    # "absent directories (null error) and sizes that are not a record multiple (invalid)"
     pid = "C15"
     title = "Debug, TLS, load-config, exception, security directories are decoded as stored"
     thm_modules = ["PeliteModel.Thm.C15"]
